@@ -41,6 +41,7 @@ class C04:
                    "(3-8 nodes, 8% at 20-50)", "MDCPDP is exercised with one depot (generator emits "
                    "capacity [B,1]; see DESIGN 7.11)"]
     required_probes = ["row_padded", "unequal_finish"]
+    CANARIES = {}
 
     # ---------------------------------------------------------------------------------------------
     @staticmethod
@@ -310,3 +311,58 @@ def _alternate(run, env, cfg, rows, p):
         t += 1
     run.fault("alternate", b)
     run.nontrivial = True
+
+
+# ------------------------------------------------------------------------------------------------
+# canary mutants (sensitivity self-test; in-memory only)
+# ------------------------------------------------------------------------------------------------
+def _canary_cvrp_capacity_shared():
+    """CVRP used capacity leaks across the batch: row i also carries row 0's load."""
+    import contextlib
+
+    from rl4co.envs.routing.cvrp.env import CVRPEnv
+
+    orig = CVRPEnv.get_action_mask
+
+    def mutant(td):
+        td = td.clone()
+        td["used_capacity"] = td["used_capacity"] + td["used_capacity"][0:1] * 0.5
+        return orig(td)
+
+    @contextlib.contextmanager
+    def cm():
+        CVRPEnv.get_action_mask = staticmethod(mutant)
+        try:
+            yield
+        finally:
+            CVRPEnv.get_action_mask = staticmethod(orig)
+
+    return cm()
+
+
+def _canary_pctsp_done_all():
+    """PCTSP `done` reduced over the batch: nobody is done until everybody is."""
+    import contextlib
+
+    from rl4co.envs.routing.pctsp.env import PCTSPEnv
+
+    orig = PCTSPEnv._step
+
+    def mutant(self, td):
+        td = orig(self, td)
+        td["done"] = td["done"] & td["done"].all()
+        return td
+
+    @contextlib.contextmanager
+    def cm():
+        PCTSPEnv._step = mutant
+        try:
+            yield
+        finally:
+            PCTSPEnv._step = orig
+
+    return cm()
+
+
+C04.CANARIES = {"cvrp_capacity_shared": _canary_cvrp_capacity_shared,
+                "pctsp_done_all": _canary_pctsp_done_all}
